@@ -27,9 +27,12 @@ Record ocall := mkOCall
     oc_verdict : verdict;        (* observed: nil error / error / recovered panic *)
     oc_tags : list (string * string * option fopts);
                                  (* tag texts written by the generator: (text, key, options it stands for) *)
-    oc_forms : list (rform * option jv) }.
+    oc_forms : list (rform * option jv);
                                  (* the form parameters as sent (r.Form) and the document the generator gave
                                     the form pass for them: must be GetFormValues of them (ReqModel.v) *)
+    oc_intact : bool }.          (* observed: after the call every object the caller handed in (the request's
+                                    form / headers / URL / path variables / body bytes, the input map or text)
+                                    holds what it held before it — ReqModel.v: [touch_head] *)
 
 Fixpoint gval_eqb (a b : gval) {struct a} : bool :=
   match a, b with
@@ -103,7 +106,7 @@ Definition forms_ok (c : ocall) : bool :=
 
 (* the model reproduces the implementation's verdict, decoded values and validator call *)
 Definition agrees1 (m : cresult) (c : ocall) : bool :=
-  tags_ok c && forms_ok c &&
+  tags_ok c && forms_ok c && oc_intact c &&
   if in_scope c then
     match m, oc_verdict c with
     | CAccepted vs, VOk => vals_agree vs (oc_passes c) && Bool.eqb (oc_called c) (is_some (oc_validator c))
@@ -129,9 +132,11 @@ Definition pass_valid (p : opass) : bool := pass_fine (op_pass p).
                 exactly the typed decoding with defaults; an installed validator ran and accepted;
    rejected  => some pass's document is ill-typed or misses a constraint (and then the validator
                 did not run), or every pass is fine and the installed validator ran and rejected;
-   a panic is always a failure. *)
+   a panic is always a failure; so is a call that wrote into an object of its caller (the next look
+   at that object then is a look at values nobody supplied). *)
 Definition prop_ok1 (c : ocall) : bool :=
   if in_scope c then
+    oc_intact c &&
     match oc_verdict c with
     | VPanic => false
     | VOk =>
